@@ -13,11 +13,9 @@ LOCAL G == INSTANCE Glob
 
 Actions == {"get", "info", "put", "activate", "delete"}
 
-RuleAllows(r, a, ncp) ==
-  /\ \E i \in DOMAIN r.action : r.action[i] = a
-  /\ \E j \in DOMAIN r.secret : G!Match(r.secret[j], ncp)
-
-Allow(rules, a, ncp) == \E i \in DOMAIN rules : RuleAllows(rules[i], a, ncp)
+D == INSTANCE ACLDefs WITH Match <- LAMBDA p, n : G!Match(p, n)
+RuleAllows(r, a, ncp) == D!RuleAllows(r, a, ncp)
+Allow(rules, a, ncp) == D!Allow(rules, a, ncp)
 
 \* The wrong reading the property excludes: action from one rule, pattern from another.
 AllowSplit(rules, a, ncp) ==
